@@ -15,11 +15,11 @@ Open Scope N_scope.
 (* For every program, block references, flags and limit for which neither side runs out of cost or
    interpreter resources: legacy accepts iff native accepts, and then spends, conditions, amounts, fee,
    locks, condition cost and signature pairs are equal, the native path executes for no more, and (outside
-   INTERNED_GENERATOR mode) costs no more in total.
-   The premise `g_simple gf = true -> refs = []` excludes the class refuted below (C07_simple_refs_refuted). *)
+   INTERNED_GENERATOR mode) costs no more in total.  (Since fix e4597dd2 both paths reject block references
+   under SIMPLE_GENERATOR, so no premise about them is needed.) *)
 Theorem C07_agree : forall run valid_key sig_ok H K, run_oracle_ok run H ->
   forall program refs max_cost gf,
-    max_cost <= COST_MAX -> (g_simple gf = true -> refs = []) ->
+    max_cost <= COST_MAX ->
     run_block_generator run valid_key sig_ok H K program refs max_cost gf <> Err CostExceeded ->
     run_block_generator2 run valid_key sig_ok H K program refs max_cost gf <> Err CostExceeded ->
     ((exists s1, run_block_generator run valid_key sig_ok H K program refs max_cost gf = Ok s1) <->
@@ -33,7 +33,7 @@ Proof. exact agree_thm. Qed.
    by exhausting cost / interpreter resources *)
 Theorem C07_cost_asymmetry : forall run valid_key sig_ok H K, run_oracle_ok run H ->
   forall program refs max_cost gf s2,
-    max_cost <= COST_MAX -> (g_simple gf = true -> refs = []) ->
+    max_cost <= COST_MAX ->
     run_block_generator2 run valid_key sig_ok H K program refs max_cost gf = Ok s2 ->
     run_block_generator run valid_key sig_ok H K program refs max_cost gf = Err CostExceeded \/
     exists s1, run_block_generator run valid_key sig_ok H K program refs max_cost gf = Ok s1 /\ same_summary gf s1 s2.
@@ -73,18 +73,7 @@ Proof. exact rom_deserializer_const. Qed.
 Theorem C07_rom_sha256tree_is_tree_hash : forall H t, sha256tree H t = th H t.
 Proof. exact sha256tree_th. Qed.
 
-(* REFUTED clause 1 (candidate finding F-C07-1): with SIMPLE_GENERATOR and a non-empty block reference
-   list the legacy path accepts what the native path rejects (TooManyGeneratorRefs), for an oracle
-   satisfying all hypotheses *)
-Theorem C07_simple_refs_refuted :
-  exists run H, run_oracle_ok run H /\
-  exists vk sig K program refs max_cost gf,
-    g_simple gf = true /\ refs <> [] /\ max_cost <= COST_MAX /\
-    (exists s, run_block_generator run vk sig H K program refs max_cost gf = Ok s) /\
-    (exists e, run_block_generator2 run vk sig H K program refs max_cost gf = Err e /\ e <> CostExceeded).
-Proof. exact simple_refs_refuted. Qed.
-
-(* REFUTED clause 2 (candidate finding F-C07-2): in INTERNED_GENERATOR mode the native path's total cost
+(* REFUTED clause (known finding F-C07-2): in INTERNED_GENERATOR mode the native path's total cost
    exceeds the legacy path's (interned storage cost > byte cost + ROM overhead) *)
 Theorem C07_interned_cost_refuted :
   exists run H, run_oracle_ok run H /\
@@ -99,7 +88,7 @@ Proof. exact interned_cost_refuted. Qed.
 Theorem C07_hypotheses_satisfiable :
   exists run H, run_oracle_ok run H /\
   exists vk sig K program refs max_cost gf s1 s2,
-    max_cost <= COST_MAX /\ (g_simple gf = true -> refs = []) /\
+    max_cost <= COST_MAX /\
     run_block_generator run vk sig H K program refs max_cost gf = Ok s1 /\
     run_block_generator2 run vk sig H K program refs max_cost gf = Ok s2 /\
     length (snd (fst s1)) = 1%nat /\ b_cost (fst (fst s2)) < b_cost (fst (fst s1)).
